@@ -40,11 +40,12 @@ def main():
         t0 = time.time()
         dst = fresh_copy()
         edits = m["edits"] if "edits" in m else [(m["file"], m["old"], m["new"])]
+        edits = list(edits) + [(m["file"], o, n) for o, n in m.get("edits_extra", [])]
         err = None
         for f, old, new in edits:
             p = os.path.join(dst, f)
             s = open(p).read()
-            nth = m.get("nth")
+            nth = m.get("nth") if (f, old, new) == edits[0] else None
             if nth is None and s.count(old) != 1:
                 err = "mutant %s: pattern occurs %d times in %s" % (m["id"], s.count(old), f)
                 break
